@@ -196,7 +196,7 @@ sys.__stdout__.write("\n@@RESULT@@" + json.dumps(res))
             data += raw + ln.get("term", "\n").encode()
         else:
             if sess.get("end") in ("exit", "exit_then_more"):
-                data += b"EXIT\n"
+                data += b"EXIT" + sess.get("exit_term", "\n").encode()
                 if sess.get("end") == "exit_then_more":
                     for extra in sess.get("after_exit", []):
                         data += extra.encode("utf-8", "surrogateescape") + b"\n"
